@@ -160,7 +160,7 @@ def run(ctx):
         "evaluations": len(items) + ctx.coverage.get("traces_validated_against_impl", 0),
         "distinct_nontrivial": len(set(it["req"] for it in items if it["tag"] is None)),
         "rule": "circuits of fragment F (no peek/peek_all/reset_all; stabilizer: no reset) generated over all gates (vector) and Clifford "
-                "gates (all three representation choices), 20k (quick) / 200k (thorough) shots: histogram vs exact Born distribution "
+                "gates (all three representation choices) and structured Clifford circuits (a parity qubit entangled with several superposed qubits, measured, partners measured in random bases), 20k (quick) / 200k (thorough) shots: histogram vs exact Born distribution "
                 "from the reference semantics; every third circuit also 5k/50k independent 2-shot runs vs the Born multinomial and vs the "
                 "model's exact 2-shot distribution; plus the witnesses of the listed findings. Non-trivial = every statistical test on a "
                 "generated circuit; distinct = distinct (circuit, representation, seed).",
